@@ -24,6 +24,14 @@ Correspondence (against `Model/Preserve.lean`, driver token `preserve`):
                 real single- and multi-agent algorithms built by agents.py (list-valued evaluation groups of
                 MADDPG / MATD3 / IPPO included); after every round each shared / target network must be bit-equal,
                 tensor by tensor (walker.module_tensors), to the evaluation network it shadows.
+* `ma`        : `Mutations.architecture_mutate` on real MADDPG / MATD3 / IPPO agents with three sub-agents of different
+                observation sizes (where the algorithm allows) and differently randomised weights: every new tensor of
+                sub-agent i against the provenance map over sub-agent i's OLD tensors, and shown NOT to be sub-agent
+                j's old values; `reinit_from_mutated` on the list: target i bit-equal to evaluation network i and
+                different from evaluation network j; every `MutationContext.__exit__` observed (module, depth, method,
+                applied method, wrapper, hook) and the number of `recreate_network` calls it makes compared with the
+                decorator model (`preserve deco …`: `Deco.enter / wrapBody / exit`) — inner exits never re-create, an
+                outermost exit exactly once iff the applied method is the module's own and it is no wrapper.
 
 Oracle (independent of the Lean model): the statement itself — every same-named parameter (and
 buffer, see assumptions) keeps its values on the common index range; `module(x)` is bit-equal before
@@ -43,6 +51,10 @@ buffers, the loop, the per-tensor branch, the slice tuples, the copies) and of t
 (`C04_source_translation_*`).  If the translator rejects the source or those proofs stop checking, that is a
 gate problem naming the broken declaration; the suites below then supply the failing input if there is one
 (the `pure` suite runs the two carry functions on tagged parameters AND buffers).
+`py2lean_preservema.py` does the same for the list branch of `Mutations.load_state_dicts / reinit_from_mutated /
+_apply_arch_mutation`, the clone comprehension of `get_offspring_eval_modules` and for `MutationContext` /
+`_mutation_wrapper` (`lean/Gen/PreserveMaGen.lean`, `Proofs/PreserveMaGenEq.lean`, `C04_source_translation_list_*` /
+`C04_source_translation_decorator_*`); the `ma` and `agent` suites supply the failing input.
 """
 from __future__ import annotations
 
@@ -56,6 +68,7 @@ import torch
 
 import common
 import py2lean_preserve
+import py2lean_preservema
 from common import ROOT, Check, InfraError, ddmin
 
 FID_NORM = "C04-norm-params-reset-on-resize"
@@ -1554,6 +1567,175 @@ def suite_agent(chk: Check, combos) -> set:
     return all_hits
 
 
+# ----------------------------------------------------------------------------- multi-agent lists and the decorator
+MA_OBS = {"MADDPG": (4, 4, 6), "MATD3": (3, 3, 5), "IPPO": (4, 4, 6)}      # different observation sizes where legal
+                                                                            # (agent_0 / agent_1 are homogeneous: same space required)
+
+
+def build_ma(algo: str, seed: int):
+    """a real multi-agent agent with three sub-agents of DIFFERENT observation sizes and different weights"""
+    import agents
+    from gymnasium import spaces
+    obs_spaces, act_spaces, ids = agents.spaces_for(algo, "vector")
+    obs_spaces = [spaces.Box(-1.0, 1.0, (n,), np.float32) for n in MA_OBS[algo]]
+    kwargs = dict(index=0, hp_config=None, net_config=copy.deepcopy(agents.default_net_config(algo, "vector")),
+                  batch_size=8, device="cpu", accelerator=None)
+    if algo == "IPPO":
+        kwargs.update(learn_step=8, update_epochs=2)
+    else:
+        kwargs.update(learn_step=1)
+    agents.seed_all(seed)
+    agent = agents.algo_class(algo)(observation_spaces=obs_spaces, action_spaces=act_spaces, agent_ids=ids, **kwargs)
+    for gi, g in enumerate(agent.registry.groups):
+        for i, nn_ in enumerate(_as_list(getattr(agent, g.eval))):
+            randomize(nn_, seed * 1000 + gi * 37 + i * 7 + 1)          # a different seed for every sub-agent
+    return agent
+
+
+def run_ma_case(chk: Check, algo: str, seed: int):
+    """`Mutations.architecture_mutate` on a real multi-agent agent with three different sub-agents:
+    every new tensor of sub-agent i against the provenance map over sub-agent i's OLD tensors, shown different from
+    sub-agent j's; the re-created targets (`reinit_from_mutated` on the list) bit-equal to their own online network and
+    different from the others'; `recreate_network` calls counted per module against the decorator model"""
+    import walker
+    from agilerl.hpo.mutation import Mutations
+    problems, diffs, hits, tags = [], [], set(), []
+    try:
+        agent = build_ma(algo, seed)
+        mut = Mutations(new_layer_prob=0.3, rand_seed=seed, device="cpu", **MUT_KINDS["arch"])
+        before, counters = {}, {}
+        for g in agent.registry.groups:
+            for i, nn_ in enumerate(_as_list(getattr(agent, g.eval))):
+                before[(g.eval, i)] = snapshot(nn_)
+        # the offspring are CLONES made inside architecture_mutate: count on the class, keyed by object
+        from agilerl.modules.base import EvolvableModule
+        calls = []
+        import agilerl.modules.base as mb
+        orig_exit = mb.MutationContext.__exit__
+
+        def counting_exit(self, et, ev, tb):
+            d0 = self.module._mutation_depth
+            mod = self.module
+            rn = mod.recreate_network
+            hit = []
+
+            def counted(*a, **k):
+                hit.append(1)
+                return rn(*a, **k)
+            object.__setattr__(mod, "recreate_network", counted)
+            try:
+                return orig_exit(self, et, ev, tb)
+            finally:
+                try:
+                    object.__delattr__(mod, "recreate_network")
+                except AttributeError:
+                    pass
+                wr_ = isinstance(mod, mb.EvolvableWrapper)
+                calls.append((id(mod), d0, self.method_name, len(hit), mod.last_mutation_attr, wr_,
+                              mod.wrapped.last_mutation_attr if wr_ else None, mod._mutation_hook is not None))
+        mb.MutationContext.__exit__ = counting_exit
+        try:
+            np.random.seed(seed % (2 ** 32))
+            torch.manual_seed(seed)
+            agent = mut.architecture_mutate(agent)
+        finally:
+            mb.MutationContext.__exit__ = orig_exit
+        tags.append("ma-arch-" + algo)
+        # --- decorator: per module, the outermost exits re-create exactly as the model says; inner exits never
+        for (mid, d0, name, nrec, final, wr_, wlast, hook_) in calls:
+            if d0 != 1:
+                tags.append("deco-inner-exit")
+                if nrec:
+                    problems.append(f"{algo}: an inner __exit__ (depth {d0}) of {name} called recreate_network")
+                continue
+            expect = 1 if (final is not None and "." not in final and not wr_) else 0
+            tags.append(f"deco-outer-{'own' if expect else 'wrapper' if wr_ else 'nested-or-none'}")
+            line = (f"preserve deco {name} 1 0 {int(wr_)} {int(hook_)} {name if '.' in name else (final or '-')} "
+                    f"{(final.split('.')[-1] if final and '.' in final else '-')} {wlast or '-'}")
+            out = chk.driver.run(["reset", line])[1].split()
+            chk.corr["model_lines"] += 1
+            if len(out) != 4:
+                raise InfraError(f"driver answered {out!r} to {line!r}")
+            if int(out[1]) != nrec:
+                (problems if nrec != expect else diffs).append(
+                    f"{algo}: outermost call of {name} (applied {final}): recreate_network called {nrec} time(s), "
+                    f"model {out[1]}, statement {expect}")
+            if out[0] != (final or "-"):
+                diffs.append(f"{algo}: outermost call of {name}: last_mutation_attr {final!r}, model {out[0]!r}")
+        # --- element by element
+        for g in agent.registry.groups:
+            nets = _as_list(getattr(agent, g.eval))
+            n_before = len([k for k in before if k[0] == g.eval])
+            if len(nets) != n_before:
+                problems.append(f"{algo}.{g.eval}: {n_before} networks before, {len(nets)} after the mutation")
+                continue
+            if len(nets) >= 3:
+                tags.append("ma-three-subagents")
+            for i, nn_ in enumerate(nets):
+                P0, B0 = before[(g.eval, i)]
+                P1, B1 = snapshot(nn_)
+                mode = step_mode(nn_, nn_.last_mutation_attr) if nn_.last_mutation_attr else "full"
+                p, d, h, t = compare_step(chk, P0, B0, P1, B1, mode)
+                problems += [f"{g.eval}[{i}]: {s_}" for s_ in p]
+                diffs += [f"{g.eval}[{i}]: {s_}" for s_ in d]
+                hits |= h
+                tags += t
+                # no cross-agent mixing: where sub-agent i kept values, they are not sub-agent j's
+                for j in range(len(nets)):
+                    if j == i:
+                        continue
+                    Pj, _ = before[(g.eval, j)]
+                    for k, t1 in P1.items():
+                        ti, tj = P0.get(k), Pj.get(k)
+                        if ti is None or tj is None or ti.dim() != t1.dim() or tj.dim() != t1.dim():
+                            continue
+                        sl = tuple(slice(0, min(a, b, c)) for a, b, c in zip(ti.shape, tj.shape, t1.shape))
+                        if t1[sl].numel() == 0 or torch.equal(ti[sl], tj[sl]):
+                            continue
+                        tags.append("cross-agent-compared")
+                        if torch.equal(t1[sl], tj[sl]):
+                            problems.append(f"{algo}.{g.eval}[{i}].{k}: after the mutation it holds the OLD values of "
+                                            f"sub-agent {j}, not its own")
+                            break
+            # --- targets / shared networks re-created from the matching online network
+            if g.shared:
+                fresh = mut.reinit_from_mutated(getattr(agent, g.eval))
+                fresh = _as_list(fresh)
+                if len(fresh) != len(nets):
+                    problems.append(f"{algo}.{g.eval}: reinit_from_mutated returned {len(fresh)} networks for {len(nets)}")
+                    continue
+                for i, (e_, s_) in enumerate(zip(nets, fresh)):
+                    te, ts = walker.module_tensors(e_), walker.module_tensors(s_)
+                    tags.append("target-reinit-list")
+                    if list(te) != list(ts) or any(te[k].shape != ts[k].shape or not torch.equal(te[k], ts[k]) for k in te):
+                        problems.append(f"{algo}.{g.eval}: re-created shared network [{i}] differs from the evaluation "
+                                        f"network [{i}] it is built from")
+                        continue
+                    for j, o_ in enumerate(nets):
+                        if j == i:
+                            continue
+                        tj = walker.module_tensors(o_)
+                        if list(tj) == list(ts) and all(tj[k].shape == ts[k].shape and torch.equal(tj[k], ts[k]) for k in ts):
+                            problems.append(f"{algo}.{g.eval}: re-created shared network [{i}] equals evaluation network [{j}]")
+    except InfraError:
+        raise
+    except Exception as e:
+        problems.append(f"{algo}/ma-arch: raised {type(e).__name__}: {e}")
+    return problems, diffs, hits, tags
+
+
+def suite_ma(chk: Check, combos) -> set:
+    all_hits, nd = set(), 0
+    for algo, seed in combos:
+        case = {"suite": "ma", "algo": algo, "seed": seed}
+        problems, diffs, hits, tags = run_ma_case(chk, algo, seed)
+        chk.case(["ma", case], nontrivial=True, tags=sorted(set(tags)) + ["ma-" + algo])
+        all_hits |= report(chk, case, problems, diffs, hits, None)
+        nd += bool(diffs)
+    chk.suite("multi-agent-lists-and-decorator", len(combos), nd)
+    return all_hits
+
+
 # ----------------------------------------------------------------------------- probes for analysed defects
 def probe_norm(chk: Check):
     """exactly D13: a LayerNorm weight of a resized layer (`mlp_layer_norm_1` after `add_node`)"""
@@ -1567,7 +1749,8 @@ def probe_norm(chk: Check):
     new = dict(m.named_parameters())[key].detach()
     chk.case(["probe", "norm"], nontrivial=True, tags=["probe-norm"])
     if tuple(new.shape) != (12,):
-        raise InfraError("norm probe: add_node did not resize the layer")
+        raise RuntimeError("norm probe: add_node did not resize the layer")     # the implementation is broken here, not the
+                                                                                # machinery: the suites report it with a replay
     if not torch.equal(new[:8], old):
         return (FID_NORM, f"{key} after add_node(0, 4): old values {old[:3].tolist()}… replaced by "
                 f"{new[:3].tolist()}…")
@@ -1591,7 +1774,7 @@ def probe_buffers(chk: Check):
     y1 = forward(spec, m, x, 0)
     chk.case(["probe", "buffers"], nontrivial=True, tags=["probe-buffers"])
     if tuple(new.shape) != tuple(old.shape):
-        raise InfraError("buffer probe: the bounded-out remove_channel changed the architecture")
+        raise RuntimeError("buffer probe: the bounded-out remove_channel changed the architecture")
     if not torch.equal(new, old) or not torch.equal(y0[0], y1[0]):
         return (FID_BUF, f"{key} {old.tolist()} -> {new.tolist()} after a bounded-out remove_channel; "
                 f"eval-mode output changed: {not torch.equal(y0[0], y1[0])}")
@@ -1656,9 +1839,20 @@ def pre_gate(chk: Check) -> None:
     """Regenerate lean/Gen/PreserveGen.lean from the source text of the tree under test (before the Lean gate)
     and re-check `generated = model` (Proofs/PreserveGenEq.lean) and the theorems over the generated definitions
     (Props/C04.lean).  A failure is a gate problem; the suites then look for the failing input."""
+    # both generated files first (Gen/PreserveMaGen imports Gen/PreserveGen and Props/C04 imports both): a stale file of
+    # an earlier run against another tree must not be blamed on the wrong translator
+    for tr, rel in ((py2lean_preserve, "Gen/PreserveGen.lean"), (py2lean_preservema, "Gen/PreserveMaGen.lean")):
+        try:
+            tr.write_if_changed(tr.translate(common.REPO)[0], common.LEAN_DIR / rel)
+        except tr.Unsupported:
+            pass
     common.translation_gate(chk, py2lean_preserve, "Gen/PreserveGen.lean",
                             ["Gen.PreserveGen", "Proofs.PreserveGenEq", "Props.C04"],
                             "preserve_parameters / shrink_preserve_parameters / clone / recreate_* / reinit_from_mutated")
+    common.translation_gate(chk, py2lean_preservema, "Gen/PreserveMaGen.lean",
+                            ["Gen.PreserveMaGen", "Proofs.PreserveMaGenEq", "Props.C04"],
+                            "list branch of load_state_dicts / reinit_from_mutated / _apply_arch_mutation, "
+                            "MutationContext / _mutation_wrapper")
 
 
 def run(chk: Check) -> None:
@@ -1730,6 +1924,12 @@ def run(chk: Check) -> None:
                     continue
                 combos.append((algo, fam, rng.randrange(1 << 20), rng.choice(list(MUT_KINDS)), rng.randint(1, 3)))
     hits |= suite_agent(chk, combos)
+    ma = [("MADDPG", 21), ("MADDPG", 22), ("MATD3", 23), ("MATD3", 24), ("IPPO", 25), ("IPPO", 26)]
+    if not quick:
+        ma += [(a, chk.rng.randrange(1 << 20)) for a in ("MADDPG", "MATD3", "IPPO") for _ in range(6)]
+    else:
+        ma += [(chk.rng.choice(["MADDPG", "MATD3", "IPPO"]), chk.rng.randrange(1 << 20)) for _ in range(2)]
+    hits |= suite_ma(chk, ma)
     # defects met inside the random suites are routed through the same finding ids as the probes
     for fid in sorted(hits - _REPORTED):
         emit_finding(chk, fid, "met in the random suites (see distribution hit:* counters)",
@@ -1927,6 +2127,8 @@ def replay(chk: Check, path: str) -> int:
     elif suite == "agent":
         problems, diffs, hits, _ = run_agent_case(chk, c["algo"], c["family"], c["seed"], c.get("kind", "arch"),
                                                   c.get("rounds", 1))
+    elif suite == "ma":
+        problems, diffs, hits, _ = run_ma_case(chk, c["algo"], c["seed"])
     elif suite == "probe":
         found = PROBES[c["probe"]](chk)
         print(json.dumps({"probe": c["probe"], "still_fails": bool(found), "detail": found[1] if found else None}))
